@@ -2,6 +2,7 @@ package kafka
 
 import (
 	"context"
+	"net"
 	"time"
 )
 
@@ -140,4 +141,22 @@ func VH_C10_Generation() {
 	g.close()
 	vhGuardCheck(false)
 	vhReach("c10-generation")
+}
+
+// Transport.pools (a map) is only read, iterated and modified under Transport.mutex: grabPool (read-locked fast path
+// and locked slow path) and CloseIdleConnections. Goroutines spawned by the pool are recorded, not run.
+func VH_C10_Transport() {
+	vhManual(true)
+	vhConcreteClock(true)
+	t := &Transport{Dial: func(ctx context.Context, network, address string) (net.Conn, error) { return nil, vhErrCoordinator }}
+	t.grabPool(TCP("vh:9092")).unref() // creates the map and the first pool
+	vhGuarded(t, "pools", &t.mutex)
+	vhGuardCheck(true)
+	t.grabPool(TCP("vh:9092")).unref()  // fast path: existing pool
+	t.grabPool(TCP("other:9092")).unref() // slow path: new pool
+	t.CloseIdleConnections()
+	t.grabPool(TCP("vh:9092")).unref()
+	t.CloseIdleConnections()
+	vhGuardCheck(false)
+	vhReach("c10-transport")
 }
